@@ -39,6 +39,8 @@ func c02(p *core.Program, r *core.Report) {
 	r.Rule("R5", "count repaired after an in-place union: (*Container).unionInPlace leaves a bitmap container's cardinality stale by design, so in every function or function literal of package roaring that calls it, every path from the call recounts (Container.Repair / Containers.Repair) before the result's N() is read and before the function returns; the only accepted shortcut is a test of the result's own type after the call (not a bitmap: count was maintained)")
 	c02FoundIsNotPosition(p, r)
 	c02CountRepaired(p, r)
+	r.Rule("R6", "Last may be empty: a function of package roaring that takes the container returned by Containers.Last tests it (its N(), or against nil) on every path before calling any other method on it")
+	c02LastMayBeEmpty(p, r)
 	r.NotDecided = "agreement of all read paths with the sequential model for all histories; exact changed-bit counts (value reasoning)"
 	rp := p.Pkg("roaring")
 	if rp == nil {
